@@ -43,6 +43,10 @@ unsafe impl std::alloc::GlobalAlloc for MinimalAlign {
     }
 }
 
+// Not under Miri: recovering the block start from the user pointer in `dealloc` steps outside the
+// provenance Stacked Borrows gives that pointer, and the interpreter's own allocator already
+// returns minimally aligned addresses.
+#[cfg(not(miri))]
 #[global_allocator]
 static ALLOC: MinimalAlign = MinimalAlign;
 
